@@ -59,7 +59,10 @@ def gen_input(rng, maxlen=12):
 # section or through the builder; the renderer records the spans of all names.
 WRITTEN = ["a", "ab", "[0-9]+", "a.", "^a", "k", "a b", "\\\"", "\\'", "\\,", "\\e", "\\ ", "x\\ y", "\\n", "\\x41", "\\d+",
            "\\.", "\\b", "a\\b", "\\é", "é+", "\\%", "\;", "\\\\", "\\/\\/", "[a-z]+", "\\<", "a\\<b", "\\=", "\\@x", "\\u00e9",
-           "\\tq", "q\\:", "\\!"]
+           "\\tq", "q\\:", "\\!",
+           # an escape that is dropped followed by escapes that must stay (regex metacharacters)
+           "\\/\\*", "\\<\\+", "a\\/b\\.c", "\\'\\(x\\)", "\\,\\|\\,", "\\=\\?\\=", "\\:\\[\\]", "\\@\\$\\^"]
+ESCAPE_COMBOS = WRITTEN[-8:]
 FLAGS = ["dot_matches_new_line", "multi_line", "octal", "posix_escapes", "case_insensitive", "swap_greed",
          "ignore_whitespace", "allow_wholeline_comments"]
 DEFAULTS = dict(allow_wholeline_comments=False, dot_matches_new_line=True, multi_line=True, octal=True, posix_escapes=False)
